@@ -264,10 +264,33 @@ def ref_outcome(term, tname, mode):
 
 def run_case(case):
     mode, term, tname = case
-    want, want_log = ref_outcome(term, tname, mode)
-    target = mk_target(tname)
     spec = build(term)
     full = Match(spec) if mode == 'match' else spec
+    return check_one(mode, term, tname, full)
+
+
+ORDERS = {'forward': list(range(10)), 'reverse': list(range(9, -1, -1)), 'interleaved': [3, 0, 7, 2, 5, 1, 9, 4, 8, 6, 3, 0]}
+
+
+def run_history(case):
+    """ONE spec object evaluated against a sequence of targets: every call must decide as if it were the first"""
+    mode, term, order = case
+    spec = build(term)
+    full = Match(spec) if mode == 'match' else spec
+    n, outcomes = 0, set()
+    for i in ORDERS[order]:
+        r = check_one(mode, term, TARGETS[i], full)
+        if r.viol is not None:
+            r.viol['history'] = 'the same spec object was used before on ' + repr([TARGETS[j] for j in ORDERS[order][:ORDERS[order].index(i)]])
+            return r
+        n += r.steps
+        outcomes.add(r.outcome)
+    return R(None, '%s:%d outcomes' % (order, len(outcomes)), nontrivial=len(outcomes) > 1, steps=n, tags={term[0], mode, order})
+
+
+def check_one(mode, term, tname, full):
+    want, want_log = ref_outcome(term, tname, mode)
+    target = mk_target(tname)
     del LOG[:]
     try:
         res = glom(target, full)
@@ -369,7 +392,7 @@ def gen_terms(mode, depth, K):
                 for form in ('dict', 'list'):
                     if form == 'list' or build_hashable(a):
                         nxt.append(['switch', [[a, vals[0]]], dflt, form])
-            for b in kids[:12]:
+            for b in kids[:12] + [x for x in kids[12:width] if x[0] in ('type', 'lit', 'pred')]:
                 nxt.append(['switch', [[a, vals[0]], [b, vals[1]]], None, 'list'])
                 nxt.append(['switch', [[a, vals[2]], [b, vals[1]]], {'lit': 'D'}, 'list'])
                 if build_hashable(a) and build_hashable(b) and a != b:
@@ -399,6 +422,23 @@ def gen_cases(tier):
             seen.add(key)
             for t in TARGETS:
                 cases.append([mode, term, t])
+    return cases
+
+
+def gen_histories(tier):
+    import json
+    depth = 2 if tier == 'quick' else 3
+    K = 1 if tier == 'quick' else 4
+    cases = []
+    for mode in ('auto', 'match'):
+        seen = set()
+        for term in gen_terms(mode, depth, K):
+            key = json.dumps(term)
+            if key in seen or term[0] in ('val', 'lit', 'type'):
+                continue
+            seen.add(key)
+            for order in (('forward', 'reverse') if tier == 'quick' else ORDERS):
+                cases.append([mode, term, order])
     return cases
 
 
@@ -522,6 +562,10 @@ def subs(tier, only=None):
                  'terms per (constructor, outcome vector over the 9 targets)',
             min_nontrivial=5000, min_outcomes=4,
             required_tags=['M', 'Mr', 'MT', 'Mbare', 'and', 'or', 'not', 'switch', 'auto', 'match']),
+        Sub('reuse-histories', gen_histories(tier), run_history,
+            rule='case = (mode, combinator term, order): ONE spec object evaluated against all ten targets in forward and reverse order (every ordered pair of targets occurs; '
+                 'thorough: also an interleaved order with repeats); every call is compared with the reference for that target alone',
+            min_nontrivial=5000, min_outcomes=6, required_tags=['switch', 'and', 'or', 'not', 'match', 'auto', 'reverse']),
         Sub('check', gen_check(tier), run_check,
             rule='case = (Check keyword combination, sub-spec T|k|missing, target)', min_nontrivial=500, min_outcomes=4,
             required_tags=['type', 'instance_of', 'value', 'validate', 'default']),
